@@ -53,7 +53,7 @@ def arrStep (fc : Facts) (x : Ext) (root : J) (fuel : Nat) (visited : List Strin
 def refStep (fc : Facts) (x : Ext) (root : J) (fuel : Nat) (visited : List String) (s : J) (f2 : Flags) :
     Outcome Flags :=
   if f2.hasRef then
-    if fc.schemaRefGuard && visited.contains (Doc.refStr s) then .ok (inferSimple f2)
+    if fc.schemaRefGuard && visited.contains (Doc.refStr s) then .ok { hasRef := true }
     else if danglingFrom x root (fuel + 1) [] [Doc.refStr s] then .err "unresolved $ref"
     else match resolve x root (Doc.refStr s) with
       | none => .err "unresolved $ref"
@@ -107,12 +107,12 @@ theorem arrStep_ok {fc : Facts} {x : Ext} {root : J} {fuel : Nat} {visited : Lis
 
 theorem refStep_ok {fc : Facts} {x : Ext} {root : J} {fuel : Nat} {visited : List String} {s : J} {f2 f : Flags}
     (h : refStep fc x root fuel visited s f2 = .ok f) :
-    f = inferSimple f2 ∨
+    f = inferSimple f2 ∨ f = { hasRef := true } ∨
       ∃ v' t' t, classify fc x root fuel v' t' = .ok t ∧ f = inferSimple t := by
   unfold refStep at h
   split at h
   · split at h
-    · injection h with h; exact .inl h.symm
+    · injection h with h; exact .inr (.inl h.symm)
     · split at h
       · cases h
       · split at h
@@ -120,7 +120,7 @@ theorem refStep_ok {fc : Facts} {x : Ext} {root : J} {fuel : Nat} {visited : Lis
         · rw [Outcome.bind_eq_ok] at h
           obtain ⟨t, ht, h⟩ := h
           injection h with h
-          exact .inr ⟨_, _, t, ht, h.symm⟩
+          exact .inr (.inr ⟨_, _, t, ht, h.symm⟩)
   · injection h with h; exact .inl h.symm
 
 theorem refStep_noref {fc : Facts} {x : Ext} {root : J} {fuel : Nat} {visited : List String} {s : J} {f2 : Flags}
@@ -128,11 +128,13 @@ theorem refStep_noref {fc : Facts} {x : Ext} {root : J} {fuel : Nat} {visited : 
   simp [refStep, h]
 
 /-- a successful classification either decorates the shallow flags of the node with the two
-    recursive flags, or re-exports (through `inferSimple`) a result obtained with less fuel -/
+    recursive flags, or is the reset result of the cut at a `$ref` already on the stack, or
+    re-exports (through `inferSimple`) a result obtained with less fuel -/
 theorem classify_ok_cases {fc : Facts} {x : Ext} {root : J} {fuel : Nat} {visited : List String} {s : J} {f : Flags}
     (h : classify fc x root (fuel + 1) visited s = .ok f) :
     (∃ a m, f = inferSimple { shallow x s with isSimpleMap := m, isSimpleArray := a } ∧
         ((shallow x s).isArray = false → a = false) ∧ ((shallow x s).isMap = false → m = false)) ∨
+      f = { hasRef := true } ∨
       ∃ v' t' t, classify fc x root fuel v' t' = .ok t ∧ f = inferSimple t := by
   rw [classify_succ, Outcome.bind_eq_ok] at h
   obtain ⟨f1, h1, h⟩ := h
@@ -200,8 +202,9 @@ theorem coherence (fc : Facts) (x : Ext) (root : J) (fuel : Nat) :
   | zero => intro _ _ _ h; cases h
   | succ fuel ih =>
     intro visited s f h
-    rcases classify_ok_cases h with ⟨a, m, rfl, ha, hm⟩ | ⟨v', t', t, ht, rfl⟩
+    rcases classify_ok_cases h with ⟨a, m, rfl, ha, hm⟩ | rfl | ⟨v', t', t, ht, rfl⟩
     · exact coherent_decorated x s a m ha hm
+    · decide
     · exact coherent_inferSimple (ih v' t' t ht)
 
 /-! ### `$ref` transparency -/
